@@ -55,6 +55,14 @@ CHECKS.update(
         note="Rule table in pvlib/harness/c06.py is the oracle (transcribed from docs/user/nonmult.rst and the property statement). Exact arithmetic; real exp/log accuracy outside; scales assumed > 0.",
         design="4/C06",
     ),
+    C12=dict(
+        text="Bounded model checking of the real context machinery against a reference stack model: every operation sequence up to length 3 (thorough: all of length 3 and sampled length 4) over "
+        "{enable(c[,n=v]), disable(1|all), with c:, with c: raise, activation that fails part-way, define} is executed on a freshly generated registry with symbolic rule coefficients, parameters and "
+        "redefinition factors; after every step conversions, root/base units, compatible units and predicates are proved equal to the model for all values; a second registry sharing a Context object and the "
+        "Context objects themselves are checked for interference/mutation.",
+        note="Reference model in pvlib/ctxmodel.py (stack discipline, last enabled wins, shortest rule chain). hash_mode=mixed. Sequences longer than the bound outside.",
+        design="4/C12",
+    ),
     C15=dict(
         text="to_root_units/to_base_units/to_reduced_units/to_compact/to_preferred and their in-place twins run on a symbolic magnitude: same dimensionality and equal root magnitude proved for all magnitudes; "
         "in-place == functional; to_compact's [1,1000) clause proved over 72 decades under an ideal log10 contract; reduced units checked for mergeable pairs against the independent reader; auto-reduce / auto-preferred registries keep the value.",
